@@ -40,7 +40,7 @@ def programs(tier):
     extra = families.ids("A5", "quick")[:12] + families.ids("A2", "quick")[:12]
     special = [i for i in reg if any(k in i.lower() for k in ("opset", "float16", "bfloat16", "bf16", "f16", "swish", "silu", "rms", "attention", "gelu", "cumprod", "bitcast"))]
     if tier == "quick":
-        return sorted(set(reg[::11] + special[::2])) + a1[::5] + extra
+        return sorted(set(reg[::17] + special[::5])) + a1[::9] + extra[::2]
     return sorted(set(reg[::2] + special)) + a1 + extra
 
 
@@ -49,7 +49,7 @@ def list_jobs(tier):
 
 
 def options(tier, selfcheck=True):
-    return pipeline.Options(timeout_ms=4000 if tier == "quick" else 20000, max_queries=32 if tier == "quick" else 96, unroll=4, selfcheck=selfcheck)
+    return pipeline.Options(timeout_ms=2500 if tier == "quick" else 20000, max_queries=32 if tier == "quick" else 96, unroll=4, selfcheck=selfcheck, max_unknown=1 if tier == "quick" else 2, budget_s=15.0 if tier == "quick" else 60.0)
 
 
 def schema_problems(model, declared):
